@@ -13,7 +13,7 @@ CLAIMED = {
             "Scheduling points are FS operations and sleeps; the cffi builder and extension loader are stubs validated against strace; more than 4 requests or more than 3 preemptions are not explored.",
             "DESIGN.md §4 C14, §2.5, Appendix A"),
     "C15": ("jit-explorer", "stateless model checking with fault/kill injection: every crash point and fault position of the real compile_forms x interleavings x later-request sequences",
-            "Every kill point of the builder (SIGKILL semantics) and every fault position (code generation, each builder step, marker creation) is crossed with every "
+            "Every kill point of the builder (SIGKILL semantics) and every fault position (code generation, each builder step, marker creation; exceptions with and without arguments) is crossed with every "
             "preemption-bounded interleaving and the listed sequences of later requests on the real compile_forms code; lock-release, no-partial-load and outcome invariants "
             "are evaluated in every state. Process-global state and SIGKILL behaviour are additionally re-enacted with real cffi / real processes for every failure kind and every real kill step.",
             "Same trusted base as C14 (stub builder/loader bound by strace and real runs); fault budget <= 2, kill budget <= 2, later-request sequences <= 2 deep; "
@@ -82,7 +82,7 @@ CLAIMED = {
             "DESIGN.md §4 C11"),
     "C16": ("parsers", "exhaustive enumeration of all AST trees of depth <= 2 plus all depth-3 operator chains, formatted and parsed back (pycparser / Python ast)",
             "Every expression tree of depth <= 2 over all node kinds (n-ary nodes with 1-3 operands) in every operand position and every depth-3 chain is formatted by the C formatter (float64, complex128) and the numba "
-            "formatter, parsed back under the target grammar and compared structurally with the L tree; statement kinds and whole captured kernel bodies likewise; a literal grid must read back within 1 ulp.",
+            "formatter, parsed back under the target grammar and compared structurally with the L tree; statement kinds and whole captured kernel bodies likewise; a literal grid must read back within 1 ulp as a floating constant, as an expression literal and through array initialisers (float64 and float32 tables); integer and floating constants are distinct trees.",
             "pycparser stands for the C grammar and ast.parse for Python; function names need only be the table entry or the bare name.",
             "DESIGN.md §4 C16, §2.4"),
     "C17": ("lvm", "exhaustive enumeration of operator x operand-kind pairs and index shapes; optimiser passes on/off compared on the compiled kernels over the corpus",
